@@ -3419,6 +3419,14 @@ static Token *global_variable(Token *tok, Type *basety, VarAttr *attr) {
     if (!ty->name)
       error_tok(ty->name_pos, "variable name omitted");
 
+    // Two initialized definitions of the same object would only be
+    // caught by the assembler.
+    if (equal(tok, "=") && scope->next == NULL)
+      for (Obj *prev = globals; prev; prev = prev->next)
+        if (!prev->is_function && prev->init_data && !prev->is_static == !attr->is_static &&
+            ty->name->len == strlen(prev->name) && !strncmp(ty->name->loc, prev->name, ty->name->len))
+          error_tok(ty->name, "redefinition of '%s'", prev->name);
+
     Obj *var = new_gvar(get_ident(ty->name), ty);
     var->is_definition = !attr->is_extern;
     var->is_static = attr->is_static;
